@@ -53,7 +53,10 @@ MANIFEST = dict(
                 "partial view of ours laid over it and nothing else touched; (2) C04_<m>_restore_from_partial - "
                 "restore_firewall with naturally behaving commands maps every partial view back to exactly the base "
                 "configuration; (3) C04_<m>_setup_fault / _kth_setup_command_fails / _identity_and_truncation - the whole "
-                "session (every dialogue, hence every truncation point; nothing is issued before GO) ends in exactly the "
+                "session (every dialogue; C04_<m>_truncation_every_byte: the dialogue the reader obtains from every byte "
+                "prefix of every text, whether the source gives an unfinished last line up - fix ff70e94, regenerated flag "
+                "FW_READER_DROPS_UNFINISHED, reader model of Code/FwDialogue.lean - or takes it for a line; nothing is "
+                "issued before GO) ends in exactly the "
                 "initial configuration under every fault schedule over the try body; (4) C04_fresh_{nat,tp,nft}Fresh - "
                 "the specification's `fresh port` implies the freshness hypotheses. Tied to the code on every run: the "
                 "real firewall.main executes in-process against the same environment for nat, tproxy and nft (every k as "
@@ -1079,10 +1082,12 @@ def model_line(case, body):
         if r is None:
             return 'N'
         return enc_list([hexs(x) for x in r])
-    return 'session %s %d %d %s %s %s %s %s %s %s' % (
+    # the bytes on the control channel go along: the reader model in Lean decides how many of the chunks are
+    # lines (an unfinished last chunk is given up or taken for a line, as the source under test has it)
+    return 'session %s %d %d %s %s %s %s %s %s %s %s' % (
         case.method, case.resolvectl, case.started_fails,
         enc_list(b['v6']), enc_list(nb['v6']), pf_tok('v6'),
-        enc_list(b['v4']), enc_list(nb['v4']), pf_tok('v4'), ' '.join(toks))
+        enc_list(b['v4']), enc_list(nb['v4']), pf_tok('v4'), hexs(b''.join(case.chunks)), ' '.join(toks))
 
 
 def run_model(lean, case, body, before):
@@ -1703,7 +1708,7 @@ METHODS_QUICK = ['nat', 'tproxy', 'nft']
 FLAG_NAMES = ['NAT_RESTORE_NONFATAL_MARK', 'NAT_RESTORE_NONFATAL_D_OUTPUT', 'NAT_RESTORE_NONFATAL_D_PREROUTING',
               'NAT_RESTORE_NONFATAL_F', 'NAT_RESTORE_NONFATAL_X', 'NAT_SETUP_NONFATAL_MARK',
               'TPROXY_RESTORE_NONFATAL_D', 'TPROXY_RESTORE_NONFATAL_F', 'TPROXY_RESTORE_NONFATAL_X',
-              'NFT_RESTORE_NONFATAL', 'PF_LOADED_INIT']
+              'NFT_RESTORE_NONFATAL', 'PF_LOADED_INIT', 'FW_READER_DROPS_UNFINISHED']
 
 
 def tree_flags():
